@@ -233,6 +233,58 @@ func propC02(r *kernel.Run) {
 func c02Adversary(r *kernel.Run, tp *kernel.Tape, w *Wire, srv *World, loader bool, nodes []*regNode, me *regNode, fca *x509.Certificate, fcaKey ed25519.PrivateKey, hist *[]string) {
 	now := time.Now()
 	victim := nodes[tp.Draw(len(nodes))]
+	if tp.Draw(8) == 0 {
+		// a credential-fetch handshake driven by hand: a well-signed fetch request (of a registered or an unknown key), with
+		// application protocols listed before, after or around the request entries. Whatever the order, it never yields a
+		// connection.
+		id := victim.id
+		who := "registered-key"
+		if tp.Draw(2) == 0 {
+			id, who = NewIdent("fetcher"), "unknown-key"
+		}
+		freq, _ := BuildFetch(HonestSpec(id))
+		fb, _ := proto.Marshal(freq)
+		list := chunkALPN(nodeenrollment.FetchNodeCredsNextProtoV1Prefix, base64.RawStdEncoding.EncodeToString(fb))
+		order := Pick2(tp, "request-only", "application-protocol-first", "application-protocol-last", "application-protocols-around")
+		switch order {
+		case "application-protocol-first":
+			list = append([]string{"h2"}, list...)
+		case "application-protocol-last":
+			list = append(list, "h2")
+		case "application-protocols-around":
+			list = append(append([]string{"http/1.1", "h2"}, list...), "grpc-exp")
+		}
+		cfg := &tls.Config{NextProtos: list, InsecureSkipVerify: true, MinVersion: tls.VersionTLS13, ServerName: nodeenrollment.CommonDnsName}
+		if tp.Draw(2) == 0 {
+			b := me.creds.CertificateBundles[tp.Draw(2)]
+			cfg.Certificates = []tls.Certificate{{Certificate: [][]byte{b.CertificateDer, b.CaCertificateDer}, PrivateKey: me.id.Priv}}
+		}
+		res := w.rawClient(fmt.Sprintf("fetcher%d", r.NextID()), cfg)
+		w.Quiesce()
+		got := 0
+		for _, a := range w.Take() {
+			if a.panicMsg != "" {
+				r.Violate("no-panic", "accept-panic/"+a.panicSite, "%s", a.panicMsg)
+			}
+			if a.err == nil {
+				got++
+				r.Violate("fetch-never-a-connection", "fetch-handshake-returned-connection", "Accept returned a connection (negotiated %q) for a hand-driven credential-fetch handshake (%s, %s)", truncate(a.negotiated, 40), who, order)
+			}
+			if a.raw != nil {
+				a.raw.Close()
+			}
+		}
+		if res.conn != nil {
+			res.conn.Close()
+		}
+		w.Quiesce()
+		w.Take()
+		*hist = append(*hist, fmt.Sprintf("hand-driven fetch %s %s -> connections=%d", who, order, got))
+		r.Count("cases", 1)
+		r.Count("ops.hand_driven_fetch_handshake", 1)
+		r.FP("fetch", who, order, got)
+		return
+	}
 	adv := &advClient{}
 	// ---- which certificate and key the client presents
 	certKind := Pick2(tp, "own", "own", "own", "stolen-leaf", "foreign-root", "self-signed", "server-auth-for-victim", "server-auth-for-victim")
@@ -375,6 +427,9 @@ func c02Adversary(r *kernel.Run, tp *kernel.Tape, w *Wire, srv *World, loader bo
 		}
 		if a.err == nil && strings.HasPrefix(a.negotiated, nodeenrollment.AuthenticateNodeNextProtoV1Prefix) {
 			authed = true
+		}
+		if a.err == nil && strings.HasPrefix(a.negotiated, nodeenrollment.FetchNodeCredsNextProtoV1Prefix) {
+			r.Violate("fetch-never-a-connection", "fetch-handshake-returned-connection", "Accept returned a connection for a handshake that negotiated the credential-fetch protocol (mix=%s)", mix)
 		}
 		if a.raw != nil {
 			a.raw.Close()
